@@ -28,6 +28,9 @@ CHECKS = {
  "C17": dict(design="3/C17", technique="explicit-state breadth-first search over objects reachable by evaluate_new_data edges; container invariants on every state, re-checked on all earlier objects after every transition; reached-from-elsewhere differential",
    text="Explicit-state BFS on the real objects: from every design of the pool (22 formulas incl. categorical / y[level] / proportion responses, no response, multi-column numeric terms, composite and multiple grouping factors) every matrix object reachable by evaluate_new_data over 5 frames (sub-frame, reversed, unseen group of g, of h, of both) to depth 2 (3 thorough) is checked: contiguous covering slices in term order, indexing by name, refusal of unknown names, agreement of data-frame / numpy / tuple views, unique labels, row counts, printing reports the actual shape; all earlier objects are re-checked after every step and root->A->B must equal root->B.",
    note="Unseen groups are evaluated in silent mode; a label view of a widened group matrix is not demanded."),
+ "C07": dict(design="3/C07", technique="explicit-state exhaustive exploration of operation histories (build / evaluate / set-config / describe / edit-frame) on the real code, each event compared with the same event in a fresh process-state; observable-snapshot invariants after every event",
+   text="Stateless exhaustive exploration of histories on the real code, each from a clean forked process: all histories of <= 3 (<= 4 thorough) events over build(6 specs chosen to collide: twin formulas, same formula on other data, shared transform call texts, NaN in columns other specs use) / evaluate-common / evaluate-group (4 frames per spec: sub-frame, permuted, other mean, unseen level + new group; the caller's frame objects are reused) / set-config / model_description, plus all deviation-bounded 5-event histories [set mode, build, evaluate X, any one event incl. an in-place edit of the frame, evaluate X again]. After every event its observation must equal the one from a fresh process-state (reference table built in forked pristine processes and cross-checked in real fresh interpreters under other PYTHONHASHSEEDs), and every existing design, every earlier result, the caller's frames and namespace must be observably unchanged.",
+   note="Fresh state is a process forked from the pristine parent plus fresh interpreters for the table; only observables are compared (a benign internal cache is not a violation); histories longer than the bounds are not covered."),
 }
 NOT_YET = {}
 props = [json.loads(l) for l in open(os.path.join(V, "properties.jsonl"))]
